@@ -170,6 +170,9 @@ def prop_documents(spec, rec):
                 "timezone": d["zone"],
             }
         )
+    import copy
+
+    docs_before = copy.deepcopy(docs)
     start = aware(spec["start_ms"], spec["start_zone"], spec.get("tzkind", "pytz"))
     end = start + timedelta(days=30)
     rec_fn = Recorder()
@@ -182,7 +185,8 @@ def prop_documents(spec, rec):
 
         def get_sessions_by_time(self, site, s, e, *a, **k):
             seen["args"] = (site, s, e)
-            return iter([dict(x) for x in docs])
+            # the documents themselves (a caller may have cached them and convert them again)
+            return iter(docs)
 
     labels = set()
     fit = bool(spec["battery_params"] and spec["battery_params"].get("fit"))
@@ -211,6 +215,8 @@ def prop_documents(spec, rec):
             judge_fit_refusal(spec, rows, rec)
             rec.case(spec, {"fit_infeasible"}, False)
             return
+    # converting a document leaves it as it was (it can be converted again, with other options)
+    require(docs == docs_before, "document_modified_by_conversion", lambda: "conversion changed the session documents: %r" % [(a, b) for a, b in zip(docs_before, docs) if a != b][:1])
     require(seen.get("args") == ("caltech", start, end) and seen.get("token") == "tok", "client_called_with_site_and_window", lambda: "client saw %r" % (seen,))
     require(len(evs) == len(docs), "one_ev_per_document", lambda: "%d EVs for %d documents" % (len(evs), len(docs)))
     off = bucket(spec["start_ms"], period)
